@@ -37,6 +37,10 @@ fn payload(kind: &str) -> Vec<(String, Vec<u8>)> {
         ],
     }
 }
+/// members of the archive the command-line tool creates (stored under their file names)
+fn cli_payload() -> Vec<(String, Vec<u8>)> {
+    vec![("one.txt".into(), b"first file".to_vec()), ("multi.bin".into(), gen::content("half", 3 * 4096 + 77, 4096, 2)), ("raw.bin".into(), gen::content("incompressible", 2 * 4096 + 5, 4096, 3))]
+}
 fn previous_content() -> Vec<(String, Vec<u8>)> {
     vec![("old\\previous.txt".into(), b"content of the previous archive".to_vec())]
 }
@@ -69,6 +73,24 @@ fn driver(args: &[String]) -> ! {
         "rebuild" => {
             let (src, dest) = (&args[1], &args[2]);
             wow_mpq::rebuild_archive(src, dest, wow_mpq::RebuildOptions::default(), None).map(|_| ()).map_err(|e| e.to_string())
+        }
+        "cli-create" => {
+            // the command-line tool's `mpq create`: inputs were laid out next to the destination by prepare()
+            let (ver, dest) = (&args[1], &args[2]);
+            let indir = Path::new(dest).parent().unwrap().join("source.mpq.d");
+            let cli = std::env::var("VERIF_CLI").unwrap_or_default();
+            let mut c = Command::new(&cli);
+            c.args(["mpq", "create", dest.as_str(), "--version", &ver.to_lowercase(), "--compression", "zlib", "--with-listfile"]);
+            for (n, _) in cli_payload() {
+                c.arg("--add").arg(indir.join(&n));
+            }
+            match c.stdout(std::process::Stdio::null()).stderr(std::process::Stdio::null()).status() {
+                Ok(st) if st.success() => Ok(()),
+                // the tool died by a signal (an injected kill): nobody reported a verdict
+                Ok(st) if st.code().is_none() => std::process::exit(3),
+                Ok(st) => Err(format!("tool exit status {st}")),
+                Err(e) => Err(format!("cannot start the tool: {e}")),
+            }
         }
         "compact" => {
             let dest = &args[1];
@@ -135,6 +157,21 @@ fn histories(tier: Tier) -> Vec<History> {
             }
         }
     }
+    // the command-line tool's create (skipped when the tool is not available: VERIF_CLI unset)
+    if std::env::var("VERIF_CLI").map(|p| Path::new(&p).is_file()).unwrap_or(false) {
+        for ver in tier.pick(vec!["V1"], vec!["V1", "V4"]) {
+            for present in [false, true] {
+                v.push(History {
+                    label: format!("tool: mpq create {ver} dest_present={present}"),
+                    drv: vec!["cli-create".into(), ver.into(), "DEST".into()],
+                    dest_present: present,
+                    compact: false,
+                    expect_new: cli_payload(),
+                    expect_old: if present { previous_content() } else { vec![] },
+                });
+            }
+        }
+    }
     // rebuild_archive writes its target through the same builder path: target present / absent
     for present in [true, false] {
         if tier == Tier::Quick && !present {
@@ -172,6 +209,13 @@ fn prepare(h: &History, dest: &Path) -> Option<Vec<u8>> {
                 b = b.add_file_data(d.clone(), n);
             }
             b.build(&src).expect("prepare rebuild source");
+        }
+    }
+    if h.drv[0] == "cli-create" {
+        let indir = dest.parent().unwrap().join("source.mpq.d");
+        std::fs::create_dir_all(&indir).expect("inputs dir");
+        for (n, d) in cli_payload() {
+            std::fs::write(indir.join(n), d).expect("input file");
         }
     }
     if h.compact {
@@ -254,13 +298,14 @@ fn run_traced(exe: &Path, h: &History, dest: &Path, inject: Option<&str>, preloa
     if let Ok(t) = std::fs::read_to_string(log) {
         for line in t.lines() {
             // "<pid> name(args...) = ret" ; skip resumed/unfinished halves and signals
-            let Some(rest) = line.split_once(' ').map(|x| x.1.trim_start()) else { continue };
+            let Some((pid, rest)) = line.split_once(' ').map(|x| (x.0, x.1.trim_start())) else { continue };
             let Some(p) = rest.find('(') else { continue };
             let name = &rest[..p];
             if !SYSCALLS.contains(&name) {
                 continue;
             }
-            let k = counts.entry(name.to_string()).or_insert(0);
+            // strace counts `when=` per tracee: number the calls per (thread, system call)
+            let k = counts.entry(format!("{pid}:{name}")).or_insert(0);
             *k += 1;
             calls.push(Call { name: name.to_string(), nth: *k, relevant: rest.contains(&dir) && !rest.contains("source.mpq"), text: rest.chars().take(160).collect() });
         }
@@ -345,7 +390,7 @@ impl Space for Faults {
             }
         }
         // temp litter is tolerated, counted
-        let litter = std::fs::read_dir(&work).map(|d| d.filter_map(|e| e.ok()).filter(|e| e.file_name() != "dest.mpq" && e.file_name() != "strace.log" && e.file_name() != "source.mpq").count()).unwrap_or(0);
+        let litter = std::fs::read_dir(&work).map(|d| d.filter_map(|e| e.ok()).filter(|e| e.file_name() != "dest.mpq" && e.file_name() != "strace.log" && e.file_name() != "source.mpq" && e.file_name() != "source.mpq.d").count()).unwrap_or(0);
         r.count("leftover_temp_files", litter as u64);
         r.count(&format!("runs_{kind}"), 1);
         let _ = std::fs::remove_dir_all(&work);
@@ -385,7 +430,9 @@ fn main() {
             }
             seqs.push(calls);
         }
-        let shape = |s: &Vec<Call>| s.iter().map(|c| (c.name.clone(), c.nth, c.relevant)).collect::<Vec<_>>();
+        // only the calls that touch the destination directory must agree: a multi-threaded subject (the
+        // command-line tool) interleaves the unrelated calls of its helper threads differently on every run
+        let shape = |s: &Vec<Call>| s.iter().filter(|c| c.relevant).map(|c| (c.name.clone(), c.nth)).collect::<Vec<_>>();
         if shape(&seqs[0]) != shape(&seqs[1]) {
             c.machinery_errors.push(format!("history '{}' is not deterministic: two fault-free runs issued different call sequences", h.label));
         }
